@@ -174,7 +174,7 @@ def run(tier, seed):
     else:
         plan = [(s, ('root', 'input', 'output'), (True, False)) for s in ('S45', 'S44', 'Ssim', 'Sjson', 'Sv2', 'Sv0', 'Sempty')]
     plan = plan + [('S45#cellruns3', ('root',), (True,)), ('S45#outruns2', ('root', 'output'), (True,)), ('S45#focus:source', ('root',), (True,)),
-                   ('S45#focus:outputs', ('root', 'output'), (True,)), ('S45#focus:meta', ('root',), (True,)), ('S45#focus:attachments', ('root', 'input'), (True,))]
+                   ('S45#focus:outputs', ('root', 'output'), (True,)), ('S45#focus:meta', ('root',), (True,)), ('S45#focus:attachments', ('root', 'input'), (True,)), ('S45#lineruns3', ('root',), (True,)), ('S45#focus:cellmix2', ('root',), (True,))]
     if tier == 'quick':
         plan = [(s, f, t) for s, f, t in plan if s != 'S45#cellruns3'] + [('S45#cellruns3', ('root',), (True,))]
     for sname, forms, trs in plan:
